@@ -23,8 +23,10 @@ PASS_THROUGH_PLUMBING = [
 def user_raise_clauses(c, emitted_nothing=True):
     """C16: the user function of this node raised."""
     return [
-        Clause('C16.exception_propagates', ['C16'], fn=c.same_exception_clause('UserError'), when='raise:UserError'),
-        Clause('C16.state_unchanged', ['C16'], fn=c.frame_clause(), when='raise:UserError',
+        Clause('C16.exception_propagates', ['C16'], fn=c.same_exception_clause('UserError'), when='raise:UserError',
+               kind='same_exception', replay={'exc': 'UserError'}),
+        Clause('C16.state_unchanged', ['C16'], fn=c.frame_clause(), when='raise:UserError', kind='frame',
+               replay={'frame_fields': list(c.data_fields)},
                note='node keeps the state it had before the call'),
         Clause('C16.nothing_emitted', ['C16'], text='emitted == old(emitted)', when='raise:UserError'),
         Clause('C16.no_net_release', ['C16', 'C04'], text='delta >= 0', when='raise:UserError',
@@ -35,7 +37,7 @@ def user_raise_clauses(c, emitted_nothing=True):
 def downstream_raise_clauses(c):
     return [
         Clause('C16.downstream_exception_propagates', ['C16'], fn=c.same_exception_clause('DownstreamError'),
-               when='raise:DownstreamError'),
+               when='raise:DownstreamError', kind='same_exception', replay={'exc': 'DownstreamError'}),
     ]
 
 
